@@ -30,7 +30,7 @@ func init() { core.Register(prop{}) }
 func (prop) ID() string    { return "C03" }
 func (prop) Level() string { return "exploration" }
 func (prop) Rule() string {
-	return "scenario = one stateful service (ldap, ftp, smtp, telnet, redis, memcached, http, tftp) and 2-3 scripted sessions with distinct client addresses and unique tokens: every step-level interleaving up to the bound (2 sessions x <=4 steps = 70; 3x3 = 1680 in thorough; sampled beyond), true concurrency (parallel goroutines, repeated, also under the race detector), and sequential histories of 1..20 earlier sessions (complete, aborted mid-command, left logged in / in a sub-directory / mail half-sent) followed by a probe session. Oracle: canonical transcript and events of each session == its solo run; every event's address is the address of the session whose token it carries; session ids partition events like addresses. Non-trivial = a run in which every session got >=1 reply byte or event; distinct by (service, sessions, interleaving). Also sessions that share a host and differ in the source port only (interleave-samehost, concurrent-samehost; for tftp within the per-host reply budget). The ftp templates include a session whose TLS upgrade fails (AUTH TLS followed by a handshake record that is not a ClientHello) and that goes on in plain text. smtp has a chunked-transfer (BDAT) template; a service may name several ways of abandoning a session (smtp: inside DATA, after a BDAT chunk that is not the last, after the envelope only) and each of them precedes every probe template in fixed history plans, directly and with one complete session in between. The ldap service is configured with two naming contexts in non-alphabetical order."
+	return "scenario = one stateful service (ldap, ftp, smtp, telnet, redis, memcached, http, tftp) and 2-3 scripted sessions with distinct client addresses and unique tokens: every step-level interleaving up to the bound (2 sessions x <=4 steps = 70; 3x3 = 1680 in thorough; sampled beyond), true concurrency (parallel goroutines, repeated, also under the race detector), and sequential histories of 1..20 earlier sessions (complete, aborted mid-command, left logged in / in a sub-directory / mail half-sent) followed by a probe session. Oracle: canonical transcript and events of each session == its solo run; every event's address is the address of the session whose token it carries; session ids partition events like addresses. Non-trivial = a run in which every session got >=1 reply byte or event; distinct by (service, sessions, interleaving). Also sessions that share a host and differ in the source port only (interleave-samehost, concurrent-samehost; for tftp within the per-host reply budget). The ftp templates include a session whose TLS upgrade fails (AUTH TLS followed by a handshake record that is not a ClientHello) and that goes on in plain text. smtp has a chunked-transfer (BDAT) template; a service may name several ways of abandoning a session (smtp: inside DATA, after a BDAT chunk that is not the last, after the envelope only) and each of them precedes every probe template in fixed history plans, directly and with one complete session in between. The ldap service is configured with two naming contexts in non-alphabetical order. ftp has a passive-mode template; every second earlier session of a history reaches the service on 10.0.0.2; every history runs on an instance of its own; each of the first three templates precedes every probe template in a fixed plan."
 }
 func (prop) Assumptions() []string {
 	return []string{"only fields shown unstable by construction are masked: timestamps, session ids, message digests derived from the token", "tokens are replaced by a placeholder before comparison so that a fresh token per run does not count as a difference",
